@@ -87,6 +87,7 @@ type TxnRec struct {
 	Marker     string
 	CommitTs   uint64 // resolved after the run (0 = not committed)
 	WantTs     uint64 // managed mode: requested commit ts
+	Cold       bool   // long-running transaction on a private key
 }
 
 // Pending returns the final pending write per key (later call wins).
@@ -127,6 +128,10 @@ type Mix struct {
 	SinceTs       bool
 	WriteSkew     bool // generate write-skew shaped transactions
 	DiscardFrac   float64
+	LongRWFrac    float64 // RW transactions that stay open until many other commits happened
+	LongRWCommits int64
+	MinWrites     int
+	ReadAll       bool // read-only transactions read every key
 }
 
 // DefaultMix returns a general-purpose mix.
@@ -148,6 +153,8 @@ type Engine struct {
 	txns    []*TxnRec
 	// managed mode: timestamp allocator (harness-chosen, monotone so that the conflict contract holds)
 	mts atomic.Uint64
+	// Acks counts acknowledged commits (used by long-running transactions).
+	Acks atomic.Int64
 }
 
 func sum8(b []byte) [8]byte {
@@ -397,6 +404,16 @@ func (c *client) runTxn() {
 	pending := map[string]model.Ver{}
 	nReads := 1 + c.r.Intn(m.MaxReads)
 	var readKeys [][]byte
+	long := update && m.LongRWFrac > 0 && c.r.Float64() < m.LongRWFrac
+	if long && c.r.Intn(2) == 0 {
+		// a long-running transaction that touches only a key private to this client: it must commit
+		// however many commits and conflict-log cleanups happen meanwhile
+		cold := []byte(fmt.Sprintf("b~cold%02d", c.id))
+		c.doGet(txn, rec, cold, pending)
+		readKeys = [][]byte{cold}
+		rec.Cold = true
+		nReads = 0
+	}
 	for i := 0; i < nReads; i++ {
 		if c.r.Float64() < m.IterFrac {
 			c.doIter(txn, rec, pending)
@@ -407,17 +424,35 @@ func (c *client) runTxn() {
 		}
 	}
 	if !update {
+		if m.ReadAll {
+			for _, k := range m.Keys {
+				c.doGet(txn, rec, k, pending)
+			}
+		}
 		txn.Discard()
 		rec.Finished = true
 		return
 	}
+	if long {
+		start := e.Acks.Load()
+		deadline := time.Now().Add(300 * time.Millisecond)
+		for e.Acks.Load()-start < m.LongRWCommits && time.Now().Before(deadline) {
+			time.Sleep(200 * time.Microsecond)
+		}
+	}
 	nW := 1 + c.r.Intn(m.MaxWrites)
+	if nW < m.MinWrites {
+		nW = m.MinWrites
+	}
 	for i := 0; i < nW; i++ {
 		var k []byte
 		if len(readKeys) > 0 && c.r.Float64() >= m.BlindFrac {
 			k = readKeys[c.r.Intn(len(readKeys))]
 		} else {
 			k = c.key()
+		}
+		if rec.Cold {
+			k = readKeys[0]
 		}
 		if m.WriteSkew && len(readKeys) >= 2 {
 			// write-skew shape: read several keys, write exactly one of them
@@ -437,7 +472,9 @@ func (c *client) runTxn() {
 			pending[string(k)] = ver
 		}
 		rec.Writes = append(rec.Writes, w)
-		if c.r.Float64() < m.OwnReadFrac {
+		if rec.Cold {
+			c.doGet(txn, rec, k, pending)
+		} else if c.r.Float64() < m.OwnReadFrac {
 			if c.r.Float64() < m.IterFrac {
 				c.doIter(txn, rec, pending)
 			} else {
@@ -484,6 +521,7 @@ func (c *client) commit(txn *badger.Txn, rec *TxnRec) {
 			rec.CommitErr = err.Error()
 		} else {
 			e.mts.Store(ts)
+			e.Acks.Add(1)
 		}
 		e.mu.Unlock()
 		rec.Finished = true
@@ -498,12 +536,16 @@ func (c *client) commit(txn *badger.Txn, rec *TxnRec) {
 		})
 		if err := <-done; err != nil {
 			rec.CommitErr = err.Error()
+		} else {
+			e.Acks.Add(1)
 		}
 	} else {
 		err := txn.Commit()
 		rec.CommitRet = e.Clock.Add(1)
 		if err != nil {
 			rec.CommitErr = err.Error()
+		} else {
+			e.Acks.Add(1)
 		}
 	}
 	rec.Finished = true
